@@ -375,6 +375,22 @@ package document
 //@ ensures err == nil ==> forall r int, c int :: 0 <= r && r < len(t.Rows) && r != row && 0 <= c && c < len(t.Rows[r].Cells) && (c != col || r < row) && t.Rows[r].Cells[c].Properties != nil ==> t.Rows[r].Cells[c].Properties.VMerge == old(t.Rows[r].Cells[c].Properties.VMerge)
 //@ ensures err == nil ==> forall r int :: row < r && r < len(t.Rows) && col < len(t.Rows[r].Cells) && t.Rows[r].Cells[col].Properties != nil ==> t.Rows[r].Cells[col].Properties.VMerge == nil || t.Rows[r].Cells[col].Properties.VMerge == old(t.Rows[r].Cells[col].Properties.VMerge)
 //@ ensures err == nil && old(rowPropsOwn(t)) ==> rowPropsOwn(t)
+//@ ensures err == nil ==> (forall k int :: {t.Rows[row].Cells[k]} {itoa(k)} col < k && k <= col + old(extraCells(t.Rows[row].Cells[col].Properties)) ==> atoi(itoa(k)) == k && fresh(t.Rows[row].Cells[k].Properties))
+//@ ensures err == nil ==> (forall k1 int, k2 int :: {t.Rows[row].Cells[k1], t.Rows[row].Cells[k2]} {itoa(k1), itoa(k2)} col < k1 && k1 < k2 && k2 <= col + old(extraCells(t.Rows[row].Cells[col].Properties)) ==> atoi(itoa(k1)) == k1 && atoi(itoa(k2)) == k2 && t.Rows[row].Cells[k1].Properties != t.Rows[row].Cells[k2].Properties)
+//@ ensures err == nil ==> (forall c int :: 0 <= c && c <= col ==> t.Rows[row].Cells[c].Properties == old(t.Rows[row].Cells[c].Properties))
+//@ ensures err == nil ==> (forall c int :: col + old(extraCells(t.Rows[row].Cells[col].Properties)) < c && c < len(t.Rows[row].Cells) ==> t.Rows[row].Cells[c].Properties == old(t.Rows[row].Cells[c - extraCells(t.Rows[row].Cells[col].Properties)].Properties))
+//@ ensures err == nil ==> (forall r int, c int :: 0 <= r && r < len(t.Rows) && r != row && 0 <= c && c < len(t.Rows[r].Cells) ==> t.Rows[r].Cells[c].Properties == old(t.Rows[r].Cells[c].Properties))
+//@ ensures err == nil && (forall k int :: {t.Rows[row].Cells[k]} {itoa(k)} col < k && k <= col + old(extraCells(t.Rows[row].Cells[col].Properties)) ==> atoi(itoa(k)) == k && fresh(t.Rows[row].Cells[k].Properties)) && (forall k1 int, k2 int :: {t.Rows[row].Cells[k1], t.Rows[row].Cells[k2]} {itoa(k1), itoa(k2)} col < k1 && k1 < k2 && k2 <= col + old(extraCells(t.Rows[row].Cells[col].Properties)) ==> atoi(itoa(k1)) == k1 && atoi(itoa(k2)) == k2 && t.Rows[row].Cells[k1].Properties != t.Rows[row].Cells[k2].Properties) && (forall c int :: 0 <= c && c <= col ==> t.Rows[row].Cells[c].Properties == old(t.Rows[row].Cells[c].Properties)) && (forall c int :: col + old(extraCells(t.Rows[row].Cells[col].Properties)) < c && c < len(t.Rows[row].Cells) ==> t.Rows[row].Cells[c].Properties == old(t.Rows[row].Cells[c - extraCells(t.Rows[row].Cells[col].Properties)].Properties)) && (forall r int, c int :: 0 <= r && r < len(t.Rows) && r != row && 0 <= c && c < len(t.Rows[r].Cells) ==> t.Rows[r].Cells[c].Properties == old(t.Rows[r].Cells[c].Properties)) ==> cellPropsOwn(t)
+//@ ensures err == nil ==> (forall k int :: {t.Rows[row].Cells[k]} {itoa(k)} col < k && k <= col + old(extraCells(t.Rows[row].Cells[col].Properties)) ==> atoi(itoa(k)) == k && len(t.Rows[row].Cells[k].Paragraphs) == 1 && arr(t.Rows[row].Cells[k].Paragraphs) >= old(allocBound()) && arr(t.Rows[row].Cells[k].Paragraphs[0].Runs) == 0)
+//@ ensures err == nil ==> (forall k1 int, k2 int :: {t.Rows[row].Cells[k1], t.Rows[row].Cells[k2]} {itoa(k1), itoa(k2)} col < k1 && k1 < k2 && k2 <= col + old(extraCells(t.Rows[row].Cells[col].Properties)) ==> atoi(itoa(k1)) == k1 && atoi(itoa(k2)) == k2 && arr(t.Rows[row].Cells[k1].Paragraphs) != arr(t.Rows[row].Cells[k2].Paragraphs))
+//@ ensures err == nil ==> (forall c int :: 0 <= c && c <= col ==> t.Rows[row].Cells[c].Paragraphs == old(t.Rows[row].Cells[c].Paragraphs))
+//@ ensures err == nil ==> (forall c int :: col + old(extraCells(t.Rows[row].Cells[col].Properties)) < c && c < len(t.Rows[row].Cells) ==> t.Rows[row].Cells[c].Paragraphs == old(t.Rows[row].Cells[c - extraCells(t.Rows[row].Cells[col].Properties)].Paragraphs))
+//@ ensures err == nil ==> (forall r int, c int :: 0 <= r && r < len(t.Rows) && r != row && 0 <= c && c < len(t.Rows[r].Cells) && (c != col || r < row) ==> t.Rows[r].Cells[c].Paragraphs == old(t.Rows[r].Cells[c].Paragraphs))
+//@ ensures err == nil ==> (forall r int :: {t.Rows[r]} row < r && r < len(t.Rows) && col < len(t.Rows[r].Cells) ==> t.Rows[r].Cells[col].Paragraphs == old(t.Rows[r].Cells[col].Paragraphs) || (old(len(t.Rows[r].Cells[col].Paragraphs)) == 0 && len(t.Rows[r].Cells[col].Paragraphs) == 1 && arr(t.Rows[r].Cells[col].Paragraphs) >= old(allocBound()) && arr(t.Rows[r].Cells[col].Paragraphs[0].Runs) == 0))
+//@ ensures err == nil ==> (forall r1 int, r2 int :: {t.Rows[r1], t.Rows[r2]} row < r1 && r1 < r2 && r2 < len(t.Rows) && col < len(t.Rows[r1].Cells) && col < len(t.Rows[r2].Cells) && t.Rows[r1].Cells[col].Paragraphs != old(t.Rows[r1].Cells[col].Paragraphs) && t.Rows[r2].Cells[col].Paragraphs != old(t.Rows[r2].Cells[col].Paragraphs) ==> arr(t.Rows[r1].Cells[col].Paragraphs) != arr(t.Rows[r2].Cells[col].Paragraphs))
+//@ ensures err == nil ==> (forall r int, k int :: {t.Rows[r], t.Rows[row].Cells[k]} row < r && r < len(t.Rows) && col < len(t.Rows[r].Cells) && t.Rows[r].Cells[col].Paragraphs != old(t.Rows[r].Cells[col].Paragraphs) && col < k && k <= col + old(extraCells(t.Rows[row].Cells[col].Properties)) ==> arr(t.Rows[r].Cells[col].Paragraphs) != arr(t.Rows[row].Cells[k].Paragraphs))
+//@ ensures err == nil && old(cellParasOwn(t)) && (forall k int :: {t.Rows[row].Cells[k]} {itoa(k)} col < k && k <= col + old(extraCells(t.Rows[row].Cells[col].Properties)) ==> atoi(itoa(k)) == k && len(t.Rows[row].Cells[k].Paragraphs) == 1 && arr(t.Rows[row].Cells[k].Paragraphs) >= old(allocBound()) && arr(t.Rows[row].Cells[k].Paragraphs[0].Runs) == 0) && (forall k1 int, k2 int :: {t.Rows[row].Cells[k1], t.Rows[row].Cells[k2]} {itoa(k1), itoa(k2)} col < k1 && k1 < k2 && k2 <= col + old(extraCells(t.Rows[row].Cells[col].Properties)) ==> atoi(itoa(k1)) == k1 && atoi(itoa(k2)) == k2 && arr(t.Rows[row].Cells[k1].Paragraphs) != arr(t.Rows[row].Cells[k2].Paragraphs)) && (forall c int :: 0 <= c && c <= col ==> t.Rows[row].Cells[c].Paragraphs == old(t.Rows[row].Cells[c].Paragraphs)) && (forall c int :: col + old(extraCells(t.Rows[row].Cells[col].Properties)) < c && c < len(t.Rows[row].Cells) ==> t.Rows[row].Cells[c].Paragraphs == old(t.Rows[row].Cells[c - extraCells(t.Rows[row].Cells[col].Properties)].Paragraphs)) && (forall r int, c int :: 0 <= r && r < len(t.Rows) && r != row && 0 <= c && c < len(t.Rows[r].Cells) && (c != col || r < row) ==> t.Rows[r].Cells[c].Paragraphs == old(t.Rows[r].Cells[c].Paragraphs)) && (forall r int :: {t.Rows[r]} row < r && r < len(t.Rows) && col < len(t.Rows[r].Cells) ==> t.Rows[r].Cells[col].Paragraphs == old(t.Rows[r].Cells[col].Paragraphs) || (old(len(t.Rows[r].Cells[col].Paragraphs)) == 0 && len(t.Rows[r].Cells[col].Paragraphs) == 1 && arr(t.Rows[r].Cells[col].Paragraphs) >= old(allocBound()) && arr(t.Rows[r].Cells[col].Paragraphs[0].Runs) == 0)) && (forall r1 int, r2 int :: {t.Rows[r1], t.Rows[r2]} row < r1 && r1 < r2 && r2 < len(t.Rows) && col < len(t.Rows[r1].Cells) && col < len(t.Rows[r2].Cells) && t.Rows[r1].Cells[col].Paragraphs != old(t.Rows[r1].Cells[col].Paragraphs) && t.Rows[r2].Cells[col].Paragraphs != old(t.Rows[r2].Cells[col].Paragraphs) ==> arr(t.Rows[r1].Cells[col].Paragraphs) != arr(t.Rows[r2].Cells[col].Paragraphs)) && (forall r int, k int :: {t.Rows[r], t.Rows[row].Cells[k]} row < r && r < len(t.Rows) && col < len(t.Rows[r].Cells) && t.Rows[r].Cells[col].Paragraphs != old(t.Rows[r].Cells[col].Paragraphs) && col < k && k <= col + old(extraCells(t.Rows[row].Cells[col].Properties)) ==> arr(t.Rows[r].Cells[col].Paragraphs) != arr(t.Rows[row].Cells[k].Paragraphs)) && (forall r int :: 0 <= r && r < len(t.Rows) && r != row ==> t.Rows[r].Cells == old(t.Rows[r].Cells)) ==> cellParasOwn(t)
+//@ ensures err == nil && old(cellParasOwn(t)) && old(paraRunsOwn(t)) && (forall k int :: {t.Rows[row].Cells[k]} {itoa(k)} col < k && k <= col + old(extraCells(t.Rows[row].Cells[col].Properties)) ==> atoi(itoa(k)) == k && len(t.Rows[row].Cells[k].Paragraphs) == 1 && arr(t.Rows[row].Cells[k].Paragraphs) >= old(allocBound()) && arr(t.Rows[row].Cells[k].Paragraphs[0].Runs) == 0) && (forall k1 int, k2 int :: {t.Rows[row].Cells[k1], t.Rows[row].Cells[k2]} {itoa(k1), itoa(k2)} col < k1 && k1 < k2 && k2 <= col + old(extraCells(t.Rows[row].Cells[col].Properties)) ==> atoi(itoa(k1)) == k1 && atoi(itoa(k2)) == k2 && arr(t.Rows[row].Cells[k1].Paragraphs) != arr(t.Rows[row].Cells[k2].Paragraphs)) && (forall c int :: 0 <= c && c <= col ==> t.Rows[row].Cells[c].Paragraphs == old(t.Rows[row].Cells[c].Paragraphs)) && (forall c int :: col + old(extraCells(t.Rows[row].Cells[col].Properties)) < c && c < len(t.Rows[row].Cells) ==> t.Rows[row].Cells[c].Paragraphs == old(t.Rows[row].Cells[c - extraCells(t.Rows[row].Cells[col].Properties)].Paragraphs)) && (forall r int, c int :: 0 <= r && r < len(t.Rows) && r != row && 0 <= c && c < len(t.Rows[r].Cells) && (c != col || r < row) ==> t.Rows[r].Cells[c].Paragraphs == old(t.Rows[r].Cells[c].Paragraphs)) && (forall r int :: {t.Rows[r]} row < r && r < len(t.Rows) && col < len(t.Rows[r].Cells) ==> t.Rows[r].Cells[col].Paragraphs == old(t.Rows[r].Cells[col].Paragraphs) || (old(len(t.Rows[r].Cells[col].Paragraphs)) == 0 && len(t.Rows[r].Cells[col].Paragraphs) == 1 && arr(t.Rows[r].Cells[col].Paragraphs) >= old(allocBound()) && arr(t.Rows[r].Cells[col].Paragraphs[0].Runs) == 0)) && (forall r1 int, r2 int :: {t.Rows[r1], t.Rows[r2]} row < r1 && r1 < r2 && r2 < len(t.Rows) && col < len(t.Rows[r1].Cells) && col < len(t.Rows[r2].Cells) && t.Rows[r1].Cells[col].Paragraphs != old(t.Rows[r1].Cells[col].Paragraphs) && t.Rows[r2].Cells[col].Paragraphs != old(t.Rows[r2].Cells[col].Paragraphs) ==> arr(t.Rows[r1].Cells[col].Paragraphs) != arr(t.Rows[r2].Cells[col].Paragraphs)) && (forall r int, k int :: {t.Rows[r], t.Rows[row].Cells[k]} row < r && r < len(t.Rows) && col < len(t.Rows[r].Cells) && t.Rows[r].Cells[col].Paragraphs != old(t.Rows[r].Cells[col].Paragraphs) && col < k && k <= col + old(extraCells(t.Rows[row].Cells[col].Properties)) ==> arr(t.Rows[r].Cells[col].Paragraphs) != arr(t.Rows[row].Cells[k].Paragraphs)) && (forall r int :: 0 <= r && r < len(t.Rows) && r != row ==> t.Rows[r].Cells == old(t.Rows[r].Cells)) ==> paraRunsOwn(t)
 //@ loop 1
 //@   invariant 1 <= i && (i <= old(spanOf(t.Rows[row].Cells[col].Properties)) || i == 1)
 //@   invariant 0 <= row && row < len(t.Rows) && 0 <= col && col < old(len(t.Rows[row].Cells))
@@ -391,6 +407,11 @@ package document
 //@   invariant forall c0 int :: {old(t.Rows[row].Cells[c0].Properties)} col < c0 && c0 < old(len(t.Rows[row].Cells)) ==> t.Rows[row].Cells[c0 + (i - 1)].Properties == old(t.Rows[row].Cells[c0].Properties)
 //@   invariant t.Rows[row].Cells[col].Paragraphs == old(t.Rows[row].Cells[col].Paragraphs)
 //@   invariant forall c0 int :: {old(t.Rows[row].Cells[c0].Paragraphs)} col < c0 && c0 < old(len(t.Rows[row].Cells)) ==> t.Rows[row].Cells[c0 + (i - 1)].Paragraphs == old(t.Rows[row].Cells[c0].Paragraphs)
+//@   invariant forall k int :: {itoa(k)} col < k && k < col + i ==> atoi(itoa(k)) == k && fresh(t.Rows[row].Cells[k].Properties) && live(t.Rows[row].Cells[k].Properties)
+//@   invariant forall k1 int, k2 int :: {itoa(k1), itoa(k2)} col < k1 && k1 < k2 && k2 < col + i ==> atoi(itoa(k1)) == k1 && atoi(itoa(k2)) == k2 && t.Rows[row].Cells[k1].Properties != t.Rows[row].Cells[k2].Properties
+//@   invariant forall c int :: {old(t.Rows[row].Cells[c].Paragraphs)} 0 <= c && c < col ==> t.Rows[row].Cells[c].Paragraphs == old(t.Rows[row].Cells[c].Paragraphs)
+//@   invariant forall k int :: {t.Rows[row].Cells[k]} {itoa(k)} col < k && k < col + i ==> atoi(itoa(k)) == k && len(t.Rows[row].Cells[k].Paragraphs) == 1 && arr(t.Rows[row].Cells[k].Paragraphs) >= old(allocBound()) && arr(t.Rows[row].Cells[k].Paragraphs) < allocBound() && arr(t.Rows[row].Cells[k].Paragraphs[0].Runs) == 0
+//@   invariant forall k1 int, k2 int :: {t.Rows[row].Cells[k1], t.Rows[row].Cells[k2]} {itoa(k1), itoa(k2)} col < k1 && k1 < k2 && k2 < col + i ==> atoi(itoa(k1)) == k1 && atoi(itoa(k2)) == k2 && arr(t.Rows[row].Cells[k1].Paragraphs) != arr(t.Rows[row].Cells[k2].Paragraphs)
 //@   decreases ite(old(spanOf(t.Rows[row].Cells[col].Properties)) > 1, old(spanOf(t.Rows[row].Cells[col].Properties)), 1) - i
 //@ loop 2
 //@   invariant row + 1 <= i && i <= len(t.Rows)
@@ -406,6 +427,12 @@ package document
 //@   invariant forall c0 int :: {old(t.Rows[row].Cells[c0].Properties)} col < c0 && c0 < old(len(t.Rows[row].Cells)) ==> t.Rows[row].Cells[c0 + old(extraCells(t.Rows[row].Cells[col].Properties))].Properties == old(t.Rows[row].Cells[c0].Properties)
 //@   invariant forall c0 int :: {old(t.Rows[row].Cells[c0].Paragraphs)} col < c0 && c0 < old(len(t.Rows[row].Cells)) ==> t.Rows[row].Cells[c0 + old(extraCells(t.Rows[row].Cells[col].Properties))].Paragraphs == old(t.Rows[row].Cells[c0].Paragraphs)
 //@   invariant t.Rows[row].Cells[col].Paragraphs == old(t.Rows[row].Cells[col].Paragraphs)
+//@   invariant forall c int :: {old(t.Rows[row].Cells[c].Paragraphs)} 0 <= c && c < col ==> t.Rows[row].Cells[c].Paragraphs == old(t.Rows[row].Cells[c].Paragraphs)
+//@   invariant forall k int :: {t.Rows[row].Cells[k]} {itoa(k)} col < k && k <= col + old(extraCells(t.Rows[row].Cells[col].Properties)) ==> atoi(itoa(k)) == k && len(t.Rows[row].Cells[k].Paragraphs) == 1 && arr(t.Rows[row].Cells[k].Paragraphs) >= old(allocBound()) && arr(t.Rows[row].Cells[k].Paragraphs) < allocBound() && arr(t.Rows[row].Cells[k].Paragraphs[0].Runs) == 0
+//@   invariant forall k1 int, k2 int :: {t.Rows[row].Cells[k1], t.Rows[row].Cells[k2]} {itoa(k1), itoa(k2)} col < k1 && k1 < k2 && k2 <= col + old(extraCells(t.Rows[row].Cells[col].Properties)) ==> atoi(itoa(k1)) == k1 && atoi(itoa(k2)) == k2 && arr(t.Rows[row].Cells[k1].Paragraphs) != arr(t.Rows[row].Cells[k2].Paragraphs)
+//@   invariant forall r1 int, r2 int :: {t.Rows[r1], t.Rows[r2]} row < r1 && r1 < r2 && r2 < i && col < len(t.Rows[r1].Cells) && col < len(t.Rows[r2].Cells) && t.Rows[r1].Cells[col].Paragraphs != old(t.Rows[r1].Cells[col].Paragraphs) && t.Rows[r2].Cells[col].Paragraphs != old(t.Rows[r2].Cells[col].Paragraphs) ==> arr(t.Rows[r1].Cells[col].Paragraphs) != arr(t.Rows[r2].Cells[col].Paragraphs)
+//@   invariant forall r int, k int :: {t.Rows[r], t.Rows[row].Cells[k]} row < r && r < i && col < len(t.Rows[r].Cells) && t.Rows[r].Cells[col].Paragraphs != old(t.Rows[r].Cells[col].Paragraphs) && col < k && k <= col + old(extraCells(t.Rows[row].Cells[col].Properties)) ==> arr(t.Rows[r].Cells[col].Paragraphs) != arr(t.Rows[row].Cells[k].Paragraphs)
+//@   invariant forall r int :: {t.Rows[r]} row < r && r < i && col < len(t.Rows[r].Cells) && t.Rows[r].Cells[col].Paragraphs != old(t.Rows[r].Cells[col].Paragraphs) ==> arr(t.Rows[r].Cells[col].Paragraphs) >= old(allocBound()) && arr(t.Rows[r].Cells[col].Paragraphs) < allocBound() && arr(t.Rows[r].Cells[col].Paragraphs[0].Runs) == 0
 //@   decreases len(t.Rows) - i
 
 // CopyTable delegates to (*TemplateEngine).cloneTable: the copy is structurally equal to the original and shares
